@@ -153,59 +153,6 @@ theorem wp_sendReconfigResponse {A} {respSeq : Nat} {Q : Unit → St → Prop} {
   · simp [RcParam.bytes, u32be]
   · intro d; exact hq _
 
-/-- `_transmit_reconfig()`. -/
-theorem wp_transmitReconfig {A} {Q : Unit → St → Prop} {e : Ep} {l : List Out} (h : WF U n e)
-    (hq : ∀ e' l', WF U n e' → e'.rwnd = e.rwnd → e'.inStreams = e.inStreams → e'.assoc = e.assoc → Q () (e', l')) :
-    wp A transmitReconfig Q (e, l) := by
-  unfold transmitReconfig
-  simp only [wp_bind, wp_getE]
-  split
-  · simp only [wp_bind, wp_setE]
-    obtain ⟨ha0, ha1⟩ := h.rcReq
-    obtain ⟨hb0, hb1⟩ := h.rcResp
-    obtain ⟨hc0, hc1⟩ := tsn_minus_one_range e.tx.localTsn
-    have hstreams : ∀ s ∈ e.reconfigQueue.take RECONFIG_MAX_STREAMS, s < 65536 :=
-      fun s hs => h.ch.rcq s (List.mem_of_mem_take hs)
-    have hser : (RcParam.resetOut e.reconfigRequestSeq.toNat e.reconfigResponseSeq.toNat
-        (tsn_minus_one e.tx.localTsn).toNat (e.reconfigQueue.take RECONFIG_MAX_STREAMS)).serialize =
-        .ok (RcParam.resetOut e.reconfigRequestSeq.toNat e.reconfigResponseSeq.toNat
-          (tsn_minus_one e.tx.localTsn).toNat (e.reconfigQueue.take RECONFIG_MAX_STREAMS)).bytes := by
-      have h1 : e.reconfigRequestSeq.toNat < 4294967296 := by omega
-      have h2 : e.reconfigResponseSeq.toNat < 4294967296 := by omega
-      have h3 : (tsn_minus_one e.tx.localTsn).toNat < 4294967296 := by omega
-      simp only [RcParam.serialize, RcParam.inRange, h1, h2, h3, decide_true, Bool.true_and, List.all_eq_true,
-        decide_eq_true_eq]
-      rw [if_pos]
-      intro s hs; exact hstreams s hs
-    have hrc : RcOk (e.reconfigRequestSeq, e.reconfigResponseSeq, tsn_minus_one e.tx.localTsn,
-        e.reconfigQueue.take RECONFIG_MAX_STREAMS) := by
-      refine ⟨?_, ?_⟩
-      · have := hser
-        simp only [RcParam.serialize] at this
-        split at this
-        · assumption
-        · cases this
-      · rw [List.length_take]; exact Nat.min_le_left _ _
-    simp only [hser, wp_liftO_ok]
-    have hw1 : WF U n { e with reconfigQueue := e.reconfigQueue.drop RECONFIG_MAX_STREAMS
-                               reconfigRequest := some (e.reconfigRequestSeq, e.reconfigResponseSeq,
-                                 tsn_minus_one e.tx.localTsn, e.reconfigQueue.take RECONFIG_MAX_STREAMS)
-                               reconfigRequestSeq := tsn_plus_one e.reconfigRequestSeq } :=
-      ⟨h.net, ⟨h.ch.dcIdx, h.ch.dcKeys, h.ch.qIdx, h.ch.qPR, h.ch.qPpid, h.ch.sid,
-        fun s hs => h.ch.rcq s (List.mem_of_mem_drop hs)⟩, h.tx, h.rx, tsn_plus_one_range _, h.rcResp, h.sack, h.room, h.ids, h.cap, h.tm1, h.tm2, h.tasks,
-        (fun p hp => by cases hp; exact hrc)⟩
-    refine wp_sendChunk hw1 (reconfigChunk_inRange (by decide) ?_) ?_
-    · have : (e.reconfigQueue.take RECONFIG_MAX_STREAMS).length ≤ 135 := by
-        rw [List.length_take]; exact Nat.min_le_left _ _
-      simp only [RcParam.bytes, List.length_append, length_u32be, length_u16sBytes]
-      omega
-    · intro d
-      refine wp_rcStart ?_
-      intro l'
-      exact hq _ _ (by wf_same2 hw1) rfl rfl rfl
-  · simp only [wp_pure]
-    exact hq e l h rfl rfl rfl
-
 /-- `_receive_reconfig_param` (only called while the association is established). -/
 theorem wp_receiveReconfigParam {A} {p : RcParam} {Q : Unit → St → Prop} {e : Ep} {l : List Out} (h : WF U n e)
     (ha : Acc 0 e.rwnd e.inStreams) (hso : SidOk e.inStreams) (hp : p.Wired) (hest : e.assoc = .established)
@@ -281,7 +228,10 @@ theorem wp_receiveReconfigParam {A} {p : RcParam} {Q : Unit → St → Prop} {e 
           refine wp_rcCancel ?_
           intro l2
           refine wp_transmitReconfig (by wf_same2 hw.clearRcr) ?_
-          intro e3 l3 hw3 hr3 hi3 has3
+          intro e3 l3 hw3 hf3
+          have hr3 := hf3.rwnd
+          have hi3 := hf3.ins
+          have has3 := hf3.assoc
           refine hq _ _ hw3 ?_ ?_ (has3.trans hest1)
           · rw [hr3, hi3]; simp only; rw [hr1, hi1]; exact ha
           · rw [hi3]; simp only; rw [hi1]; exact hso
